@@ -193,6 +193,10 @@ type Hooks struct {
 	// re-evaluating the condition would repeat side effects).
 	DecideV func(in *Interp, st *State, cond ast.Expr, v Value) tri
 	AssumeV func(in *Interp, st *State, cond ast.Expr, v Value, branch bool) bool
+	// AssumeKey refines an abstract table key: the key equals (eq) or differs from the constant k on this path;
+	// false when that contradicts what the path already knows. When set, a lookup in a constant map literal with
+	// a non-constant key forks into one path per entry plus the miss.
+	AssumeKey func(in *Interp, st *State, key Value, k constant.Value, eq bool) bool
 	// CallValue handles a call through a function value that denotes a known declared function.
 	CallValue func(in *Interp, st *State, call *ast.CallExpr, fn *types.Func, args []Value) (out []valState, handled bool)
 	// BinOp may give a domain-specific result for a binary operation on abstract values.
@@ -454,7 +458,177 @@ func (in *Interp) zeroOf(t types.Type) Value {
 	return unknownV()
 }
 
+type lookupRes struct {
+	st  *State
+	v   Value
+	hit bool
+}
+
+// keyedLookup forks a lookup tbl[key] in a package-level map literal with constant keys over the entries and the
+// miss, refining the key through the AssumeKey hook.
+func (in *Interp) keyedLookup(st *State, e *ast.IndexExpr) ([]lookupRes, bool) {
+	if in.h.AssumeKey == nil {
+		return nil, false
+	}
+	id, ok := stripParens(e.X).(*ast.Ident)
+	if !ok {
+		return nil, false
+	}
+	lit := in.c.tableLiteral(in.c.objOf(id))
+	if lit == nil {
+		return nil, false
+	}
+	mt, isMap := in.c.typeOf(lit).Underlying().(*types.Map)
+	if !isMap {
+		return nil, false
+	}
+	type entry struct {
+		k   constant.Value
+		val ast.Expr
+	}
+	var ents []entry
+	// keys that are struct literals of constants: {bindStruct, bindOne}
+	if kst, isStruct := mt.Key().Underlying().(*types.Struct); isStruct {
+		type sentry struct {
+			f   map[string]constant.Value
+			val ast.Expr
+		}
+		var sents []sentry
+		for _, el := range lit.Elts {
+			kv, ok := el.(*ast.KeyValueExpr)
+			if !ok {
+				return nil, false
+			}
+			kl, ok := stripParens(kv.Key).(*ast.CompositeLit)
+			if !ok {
+				return nil, false
+			}
+			se := sentry{f: map[string]constant.Value{}, val: kv.Value}
+			for i, fe := range kl.Elts {
+				name, ve := "", fe
+				if fkv, isKV := fe.(*ast.KeyValueExpr); isKV {
+					if id, isID := fkv.Key.(*ast.Ident); isID {
+						name = id.Name
+					}
+					ve = fkv.Value
+				} else if i < kst.NumFields() {
+					name = kst.Field(i).Name()
+				}
+				k := in.c.constOf(ve)
+				if name == "" || k == nil {
+					return nil, false
+				}
+				se.f[name] = k
+			}
+			for i := 0; i < kst.NumFields(); i++ {
+				if _, has := se.f[kst.Field(i).Name()]; !has {
+					return nil, false // zero-valued fields left out: not followed
+				}
+			}
+			sents = append(sents, se)
+		}
+		var out []lookupRes
+		for _, kvs := range in.eval(st, e.Index) {
+			if kvs.v.K != vStruct {
+				return nil, false
+			}
+			var hit *sentry
+			for i := range sents {
+				same := true
+				for name, k := range sents[i].f {
+					fv, has := kvs.v.Fields[name]
+					if !has || fv.K != vConst || !comparable(k, fv.C) {
+						return nil, false
+					}
+					if !constant.Compare(k, token.EQL, fv.C) {
+						same = false
+					}
+				}
+				if same {
+					hit = &sents[i]
+					break
+				}
+			}
+			if hit != nil {
+				out = append(out, lookupRes{kvs.st, in.literalValue(hit.val), true})
+				continue
+			}
+			z := in.zeroOf(mt.Elem())
+			switch mt.Elem().Underlying().(type) {
+			case *types.Signature, *types.Pointer, *types.Interface:
+				z = tagV("miss", nil)
+			}
+			out = append(out, lookupRes{kvs.st, z, false})
+		}
+		return out, true
+	}
+	for _, el := range lit.Elts {
+		kv, ok := el.(*ast.KeyValueExpr)
+		if !ok {
+			return nil, false
+		}
+		k := in.c.constOf(kv.Key)
+		if k == nil {
+			return nil, false
+		}
+		ents = append(ents, entry{k, kv.Value})
+	}
+	var out []lookupRes
+	for _, kvs := range in.eval(st, e.Index) {
+		if kvs.v.K == vConst {
+			v, ok := in.tableLookup(e.X, kvs.v)
+			if !ok {
+				return nil, false
+			}
+			hit := false
+			for _, en := range ents {
+				if comparable(en.k, kvs.v.C) && constant.Compare(en.k, token.EQL, kvs.v.C) {
+					hit = true
+				}
+			}
+			out = append(out, lookupRes{kvs.st, v, hit})
+			continue
+		}
+		for _, en := range ents {
+			cl := kvs.st.clone()
+			if in.h.AssumeKey(in, cl, kvs.v, en.k, true) {
+				out = append(out, lookupRes{cl, in.literalValue(en.val), true})
+			}
+		}
+		miss := kvs.st.clone()
+		okMiss := true
+		for _, en := range ents {
+			if !in.h.AssumeKey(in, miss, kvs.v, en.k, false) {
+				okMiss = false
+				break
+			}
+		}
+		if okMiss {
+			z := in.zeroOf(mt.Elem())
+			switch mt.Elem().Underlying().(type) {
+			case *types.Signature, *types.Pointer, *types.Interface:
+				z = tagV("miss", nil)
+			}
+			out = append(out, lookupRes{miss, z, false})
+		}
+	}
+	return out, true
+}
+
 func (in *Interp) assignList(st *State, lhs, rhs []ast.Expr, tok token.Token) []*State {
+	if len(rhs) == 1 && len(lhs) == 2 && in.h.AssumeKey != nil {
+		if ie, ok := stripParens(rhs[0]).(*ast.IndexExpr); ok {
+			if res, ok := in.keyedLookup(st, ie); ok {
+				var out []*State
+				for _, r := range res {
+					in.store(r.st, lhs[0], token.ASSIGN, r.v)
+					in.store(r.st, lhs[1], token.ASSIGN, constV(constant.MakeBool(r.hit)))
+					out = append(out, r.st)
+				}
+				return out
+			}
+		}
+	}
 	// evaluate all right-hand sides left to right, then assign
 	cur := []struct {
 		st   *State
@@ -1197,7 +1371,7 @@ func (in *Interp) eval(st *State, e ast.Expr) []valState {
 				case *types.Array:
 					elem = u.Elem()
 				}
-				if elem != nil && in.h.Slice != nil {
+				if elem != nil && (in.h.Slice != nil || in.h.AssumeKey != nil) {
 					if _, isStruct := elem.Underlying().(*types.Struct); isStruct {
 						if lit := in.c.tableLiteral(pv); lit != nil {
 							list := Value{K: vList}
@@ -1354,6 +1528,13 @@ func (in *Interp) eval(st *State, e ast.Expr) []valState {
 	case *ast.CallExpr:
 		return in.evalCall(st, e)
 	case *ast.IndexExpr:
+		if res, ok := in.keyedLookup(st, e); ok {
+			var out []valState
+			for _, r := range res {
+				out = append(out, valState{r.st, r.v})
+			}
+			return out
+		}
 		var out []valState
 		for _, x := range in.eval(st, e.X) {
 			for _, i := range in.eval(x.st, e.Index) {
@@ -1743,9 +1924,16 @@ func (in *Interp) evalCall(st *State, call *ast.CallExpr) []valState {
 			if v, ok := st.Env[in.c.objOf(id)]; ok && v.K == vFunc {
 				fnVal = &v
 			}
-		} else if sel, isSel := stripParens(call.Fun).(*ast.SelectorExpr); isSel && in.h.CallValue != nil {
+		} else if sel, isSel := stripParens(call.Fun).(*ast.SelectorExpr); isSel && (in.h.CallValue != nil || in.h.AssumeKey != nil) {
 			// x.f(...) with f a field holding a function
 			if fvs := in.eval(st, sel); len(fvs) == 1 && fvs[0].v.K == vFunc {
+				st = fvs[0].st
+				v := fvs[0].v
+				fnVal = &v
+			}
+		} else if ix, isIdx := stripParens(call.Fun).(*ast.IndexExpr); isIdx {
+			// table[k](...): the entry of a constant table
+			if fvs := in.eval(st, ix); len(fvs) == 1 && fvs[0].v.K == vFunc {
 				st = fvs[0].st
 				v := fvs[0].v
 				fnVal = &v
@@ -1768,6 +1956,12 @@ func (in *Interp) evalCall(st *State, call *ast.CallExpr) []valState {
 			if len(args) >= n {
 				list := Value{K: vList, Tup: append([]Value(nil), args[n:]...)}
 				args = append(append([]Value(nil), args[:n]...), list)
+			}
+		}
+		if fnVal != nil && fnVal.FnObj != nil && fnVal.Recv == nil && fnVal.Lit == nil && in.h.CallValue == nil && callee == nil {
+			// a plain declared function reached through a table entry: the domain sees it as a call of that function
+			if sig, ok := fnVal.FnObj.Type().(*types.Signature); ok && sig.Recv() == nil {
+				callee = fnVal.FnObj
 			}
 		}
 		if in.h.Call != nil {
